@@ -2186,6 +2186,14 @@ def run(ck):
                    "KPIECE1 model side: the recorded oracle answers are replayed; both random streams are recomputed with the RNG model of C20; "
                    "the oracle recomputes DiscreteMotionValidator's three-argument answer, the projection coordinates and goal distances itself"]
     ck.assumptions += ["KPIECE1: GoalSampleableRegion goal (GoalState); iteration-count termination condition (one evaluation per loop turn)"]
+    ck.rule += ("; engine 4 (LBKPIECE1): planning problems on R^2 / R^3 box environments with 1-3 starts and 1-3 goal states (some "
+                "invalid), minValidPathFraction 0.05..1, 0-400 iterations; non-trivial if some iteration removes motions (a lazily "
+                "validated edge failed and its subtree left the discretization)")
+    ck.trusted += ["harness/lbkpiece.cpp: RealVectorStateSpace subclass logging allocState/freeState (motion identity, free events), "
+                   "ProjectionEvaluator subclass (components 0,1, extent/20 cells) whose project() is the creation event of a motion, "
+                   "recording sampler / GoalStates / DiscreteMotionValidator wrappers; opened `private` of LBKPIECE1.h; dStart_.rng_, "
+                   "dGoal_.rng_ and rng_ reseeded before solve(); termination condition counts loop-head evaluations"]
+    ck.assumptions += ["LBKPIECE1: the termination condition does not fire inside pis_.nextGoal(ptc) while goal samples remain"]
     ck.lean_build(LEAN_TARGETS)
     ck.audit(roots=["Drv.Grid", "Drv.Discretization", "Drv.KPIECE1", "Drv.LBKPIECE1"])
     if ck.tier == "thorough" and ck.lean_ok:
